@@ -10,7 +10,7 @@ Otherwise the next hand-over delivers the previous content plus the new one (pro
 tuples concatenated, children of two rules merged).
 Not a hand-over: a constructor whose class keeps a *reference* member of V's type (it aliases V, e.g.
 ChoiceVector(processed, fixedList))."""
-from vfacts import strip, walk, is_node, method_name, must_pass_through
+from vfacts import strip, walk, is_node, method_name, must_pass_through, enclosing
 from .prov import var_table
 
 RULE = 'SCRATCHRESET'
@@ -18,6 +18,7 @@ FLOOR = 20
 ANCHORS = []   # instances move into helpers/lambdas under extraction refactorings (refactor/F-6); health is judged by the floor
 
 FILLS = ('push_back', 'insert', 'emplace_back', 'emplace', 'push_front')
+LOOPS = ('ForStmt', 'WhileStmt', 'DoStmt', 'CXXForRangeStmt')
 RESETS = ('clear', 'resize', 'assign', 'swap', 'pop_back', 'pop_front', 'erase')
 
 
@@ -98,3 +99,37 @@ def run(unit, em):
                     em.ok(s, txt, '%s is reset (or re-declared) before it is filled again' % name, 'reset')
                 else:
                     em.violation(s, txt, '`%s` is handed over here and filled again at line %d without being emptied in between: the next hand-over carries the previous elements too' % (name, unit.loc(w)[1] if w else 0), 'reset')
+                    continue
+                # iteration clause: the loop in which the hand-over happens starts every iteration with V empty — V is
+                # reset before its first fill of the iteration, or after the last fill on every path to the next iteration
+                # (a hand-over that is skipped, e.g. because a size test fails, must not leave a partial fill behind)
+                L = enclosing(s, LOOPS)
+                if L is None or any(x is v['node'] for x in walk(L)):
+                    continue        # not in a loop / V is declared inside it
+                if not any(any(x is f_ for x in walk(L)) for f_ in fills):
+                    continue
+                body = L.get('body')
+                first = None
+                for m_ in walk(body):
+                    if m_ is not body and cfg.locate(m_) is not None:
+                        first = m_
+                        break
+                nxt = L.get('inc') if is_node(L.get('inc')) else L.get('c')
+                if first is None or not is_node(nxt):
+                    continue
+                nxt_ids = {id(x) for x in walk(nxt)}
+                fill_in = [f_ for f_ in fills if any(x is f_ for x in walk(L))]
+                pre_ok, _ = must_pass_through(cfg, cfg.locate(first), lambda n: any(n is f_ for f_ in fill_in), marker, start_after=False)
+                post_ok = True
+                wpost = None
+                for f_ in fill_in:
+                    pf = cfg.locate(f_)
+                    if pf is None:
+                        continue
+                    o2, w2 = must_pass_through(cfg, pf, lambda n: id(n) in nxt_ids, marker)
+                    if not o2:
+                        post_ok, wpost = False, f_
+                if pre_ok or post_ok:
+                    em.ok(s, txt + ' [iteration]', '%s is empty at the start of every iteration of the enclosing loop' % name, 'iteration')
+                else:
+                    em.violation(s, txt + ' [iteration]', '`%s` is filled at line %d and the next iteration of the enclosing loop can start without it having been emptied (the reset is only on the path through the hand-over): a skipped hand-over leaves its partial fill in front of the next one' % (name, unit.loc(wpost)[1] if wpost else 0), 'iteration')
